@@ -31,29 +31,138 @@ def observable(w, ev, r):
     return repr(getattr(r, "term", r))
 
 
-def _lazy_job(state, sp):
-    from rules.c01_coupdate import Battery, binary_ops, unary_ops
+def extra_ops(w, prog, sp):
+    """operations outside the C01 battery (scalar reductions, elementwise maps, in-place arithmetic, the interface wrappers):
+    their results are plain tokens or arrays, compared between the twins like the rest"""
+    arr = prog.cls("FermionicArray")
+    nd = sp.ndim
+
+    def m(name):
+        return prog.lookup_method(arr, name)
+
+    ops = []
+    for name in ("abs", "all", "any", "isfinite", "max", "min", "sum", "norm", "sqrt", "log", "log2", "log10", "to_dense",
+                 "get_sparsity", "drop_missing_blocks", "item", "__float__", "__complex__", "__bool__", "__int__"):
+        if m(name) is not None:
+            ops.append((name, m(name), lambda ev, x, name=name: w.meth(ev, x, name), ()))
+    for name in ("H", "T", "sizes", "charges", "num_blocks", "dtype"):
+        if m(name) is not None:
+            ops.append((name, m(name), lambda ev, x, name=name: w.meth(ev, x, name), ()))
+    ops.append(("clip", m("clip"), lambda ev, x: w.meth(ev, x, "clip", -1.0, 1.0), ()))
+    ops.append(("2*x", m("__rmul__"), lambda ev, x: w.meth(ev, x, "__rmul__", 2.0), ()))
+
+    def inplace(name, arg):
+        def run(ev, x, *ys):
+            r = w.meth(ev, x, name, ys[0] if ys else arg)
+            return (r, x)
+        return run
+
+    ops.append(("x*=2", m("__imul__"), inplace("__imul__", 2.0), ()))
+    ops.append(("x/=2", m("__itruediv__"), inplace("__itruediv__", 2.0), ()))
+    same = Spec(sp.sym, sp.duals, sp.charge, sp.tables, drop=sp.drop, fermionic=True, signs=1, tag="y", label=sp.label)
+    ops.append(("x+=y", m("__iadd__"), inplace("__iadd__", None), (same,)))
+    ops.append(("x-=y", m("__isub__"), inplace("__isub__", None), (same,)))
+    ops.append(("allclose(y)", m("allclose"), lambda ev, x, y: w.meth(ev, x, "allclose", y), (same,)))
+    if nd == 2:
+        ops.append(("trace", m("trace"), lambda ev, x: w.meth(ev, x, "trace"), ()))
+    # the interface functions: thin wrappers that must not bypass the synchronisation of the methods
+    for fname, args in (("conj", ()), ("abs", ()), ("sqrt", ()), ("log", ()), ("sum", ()), ("max", ()), ("min", ()), ("all", ()),
+                        ("any", ()), ("isfinite", ()), ("transpose", (tuple(reversed(range(nd))),)), ("squeeze", ()),
+                        ("expand_dims", (0,)), ("clip", (-1.0, 1.0)), ("fuse", (tuple(range(nd)),)), ("trace", ())):
+        f = prog.funcs.get(f"symmray.interface:{fname}")
+        if f is None or (fname == "trace" and nd != 2):
+            continue
+        ops.append((f"interface.{fname}", f, lambda ev, x, f=f, args=args: ev.apply(f, [x, *args], {}, None), ()))
+    lin = prog.funcs.get("symmray.linalg:norm")
+    if lin is not None:
+        ops.append(("linalg.norm", lin, lambda ev, x: ev.apply(lin, [x], {}, None), ()))
+    return [o for o in ops if o[1] is not None]
+
+
+def _programs(b, w, prog, sp, tier, square):
+    """(name, anchor, fn, others, prep): `prep` builds the array whose pending signs the twins differ in (None: the
+    family member itself, which is built with pending signs)"""
+    from rules.c01_coupdate import CHAIN_SKIP_SECOND, _fuse_groupings, binary_ops, square_ops, unary_ops
+
+    arr = prog.cls("FermionicArray")
+    nd = sp.ndim
+    ops = [(n, a, f, (), None) for (r, n, a, f) in unary_ops(b, sp) if not any(k in n for k in SKIP)]
+    if nd <= 3:
+        ops += [(n, a, f, o, None) for (r, n, a, f, o) in binary_ops(b, sp) if not any(k in n for k in SKIP)]
+    ops += [(n, a, f, o, None) for (n, a, f, o) in extra_ops(w, prog, sp)]
+    if square:
+        ops += [(n, a, f, (), None) for (r, n, a, f) in square_ops(b, sp) if not any(k in n for k in SKIP)]
+
+    # pending signs that arise in the middle of a computation: the intermediate array is used as it is / synchronised first
+    def second_ops(nd2):
+        sp2 = Spec(sp.sym, (False,) * nd2, sp.charge, TABLES[sp.sym][:nd2], fermionic=True)
+        out = [(n, a, f) for (r, n, a, f) in unary_ops(b, sp2) if not any(k in n for k in CHAIN_SKIP_SECOND + SKIP)]
+        out += [(n, a, f) for (n, a, f, o) in extra_ops(w, prog, sp2) if not o]
+        return out
+
+    def fused_then_flipped(groups):
+        def prep(ev, x):
+            y = w.meth(ev, x, "fuse", *groups)
+            return w.meth(ev, y, "phase_flip", *range(len(y.fields["_indices"])))
+        return prep
+
+    unf, unf_all = prog.lookup_method(arr, "unfuse"), prog.lookup_method(arr, "unfuse_all")
+    for groups in _fuse_groupings(nd):
+        gname = ",".join("(" + ",".join(map(str, g)) + ")" for g in groups)
+        nd2 = nd - sum(len(g) - 1 for g in groups)
+        prep = fused_then_flipped(groups)
+        pre = f"fuse{gname}.phase_flip(all) ; "
+        for ax in range(nd2):
+            ops.append((pre + f"unfuse({ax})", unf, lambda ev, y, ax=ax: w.meth(ev, y, "unfuse", ax), (), prep))
+            ops.append((pre + f"unfuse({ax}, inplace)", unf, lambda ev, y, ax=ax: w.meth(ev, y, "unfuse", ax, inplace=True), (), prep))
+        if unf_all is not None:
+            ops.append((pre + "unfuse_all", unf_all, lambda ev, y: w.meth(ev, y, "unfuse_all"), (), prep))
+        if tier != "quick" or groups == _fuse_groupings(nd)[0]:
+            ops += [(pre + n, a, f, (), prep) for (n, a, f) in second_ops(nd2)]
+    rev = tuple(reversed(range(nd)))
+    firsts = [("conj", lambda ev, x: w.meth(ev, x, "conj")), ("transpose(reverse)", lambda ev, x: w.meth(ev, x, "transpose", rev)),
+              ("dagger", lambda ev, x: w.meth(ev, x, "dagger")), ("phase_global", lambda ev, x: w.meth(ev, x, "phase_global")),
+              ("phase_transpose", lambda ev, x: w.meth(ev, x, "phase_transpose", rev))]
+    if tier == "quick":
+        firsts = firsts[:2] if nd <= 3 else []
+    for (n1, f1) in firsts:
+        ops += [(f"{n1} ; {n}", a, f, (), f1) for (n, a, f) in second_ops(nd)]
+    return [o for o in ops if o[1] is not None]
+
+
+def _lazy_job(state, case):
+    from rules.c01_coupdate import Battery
 
     prog, tier = state
+    sp, square = case
+    from engine import minieval
+
     w = World(prog)
     wit = Witness()
     b = Battery(prog, tier)
-    ops = [(n, a, f, ()) for (r, n, a, f) in unary_ops(b, sp) if not any(k in n for k in SKIP)]
-    if sp.ndim <= 3:
-        ops += [(n, a, f, o) for (r, n, a, f, o) in binary_ops(b, sp) if not any(k in n for k in SKIP)]
-    for (name, anchor, fn, others) in ops:
+    reached = set()
+    for (name, anchor, fn, others, prep) in _programs(b, w, prog, sp, tier, square):
         where = f"{name} on {sp.describe()}"
+        key = f"R09.5|{name.split(' ; ')[-1].split(' ')[0]}|{anchor.fq}"
         try:
-            outs = []
+            outs, lines, completed = [], set(), 0
             for synced in (False, True):
                 ev = w.ev()
                 try:
                     x = sp.build(w)
+                    if prep is not None:
+                        x = prep(ev, x)
                     ys = [o.build(w) for o in others]
                     if synced:
                         x = w.meth(ev, x, "phase_sync")
                         ys = [w.meth(ev, y, "phase_sync") for y in ys]
-                    outs.append(observable(w, ev, fn(ev, x, *ys)))
+                    minieval.TRACE = None if synced else lines
+                    try:
+                        r = fn(ev, x, *ys)
+                    finally:
+                        minieval.TRACE = None
+                    outs.append(observable(w, ev, r))
+                    completed += 1
                 except Diverges:
                     outs.append(("does not terminate", synced))
                 except Raised as e:
@@ -62,20 +171,23 @@ def _lazy_job(state, sp):
                     # a failure that does not depend on the sign table is not this rule's business (C01 / C02 report it)
                     outs.append(("fails", type(e).__name__))
             wit.tick("R09.5")
+            if completed == 2 and outs[0] == outs[1]:
+                # only an evaluation that ran to a result on both twins vouches for the statements it went through
+                reached |= lines
             if any(isinstance(o, tuple) and o and o[0] == "does not terminate" for o in outs):
-                wit.bad(f"R09.5|{name.split(' ')[0]}|{anchor.fq}", f"{where}: the evaluation does not terminate (loop bound exceeded)")
+                wit.bad(key, f"{where}: the evaluation does not terminate (loop bound exceeded)")
                 break  # every further program would hit the same loop
             if outs[0] != outs[1]:
-                wit.bad(f"R09.5|{name.split(' ')[0]}|{anchor.fq}", f"{where}: the result with pending signs differs from the result on the synchronised array")
+                wit.bad(key, f"{where}: the result with pending signs differs from the result on the synchronised array")
         except Unsupported as e:
             raise AnalysisError(f"{name} outside the evaluable sub-language: {e}")
         except Raised:
             continue  # an explicit refusal is the same refusal on both twins
         except PYERR as e:
-            wit.bad(f"R09.5|{name.split(' ')[0]}|{anchor.fq}", f"{where}: {type(e).__name__}: {e}")
+            wit.bad(key, f"{where}: {type(e).__name__}: {e}")
         except LayoutError as e:
-            wit.bad(f"R09.5|{name.split(' ')[0]}|{anchor.fq}", f"{where}: {e}")
-    return wit.w, wit.n
+            wit.bad(key, f"{where}: {e}")
+    return wit.w, wit.n, reached
 
 
 def check_lazy_equivalence(prog, ctx):
@@ -90,16 +202,20 @@ def check_lazy_equivalence(prog, ctx):
             pats = {tuple(bool(i % 2) for i in range(nd)), tuple(i < (nd + 1) // 2 for i in range(nd))}
             if sp.duals not in pats or (nd == 4 and sp.drop == "none"):
                 continue
-        cases.append(sp)
+        cases.append((sp, False))
+    from rules.c01_coupdate import square_specs
+
+    cases += [(sp, True) for sp in square_specs(tier) if sp.fermionic]
     import os
 
     if os.environ.get("VERIF_SELFTEST"):
         cases = cases[::3]  # armed-ness runs (one per corpus variant) use a third of the family
-    wits, n = {}, 0
-    for wmap, cnt in pmap(_lazy_job, (prog, tier), cases):
+    wits, n, reached = {}, 0, set()
+    for wmap, cnt, lines in pmap(_lazy_job, (prog, tier), cases):
         for k, v in wmap.items():
             wits.setdefault(k, v)
         n += cnt.get("R09.5", 0)
+        reached |= lines
     ctx.need(n >= (150 if os.environ.get("VERIF_SELFTEST") else 500) or wits, f"R09.5: only {n} twin evaluations")
     sync = prog.func("symmray.fermionic_core:FermionicArray.phase_sync")
     if not wits:
@@ -110,4 +226,4 @@ def check_lazy_equivalence(prog, ctx):
         _, opname, fq = key.split("|", 2)
         f = prog.funcs.get(fq, sync)
         ctx.check(False, "R09.5", f, f.node, f"{opname}: lazy != synced", f"pending signs are observable — witness: {msg}")
-    return n
+    return n, (reached if not wits else None)
